@@ -376,6 +376,60 @@ func c20Replicated(c *fw.Ctx, round int) {
 	_ = api.Subscription{}
 }
 
+// c20MergeRace: many goroutines merge updates of ONE retained topic, ONE session and ONE subscription
+// concurrently, each in its own order; whatever the interleaving the survivor must be the update with
+// the greatest timestamp.
+func c20MergeRace(c *fw.Ctx, round int) {
+	bad := 0
+	var witness string
+	rounds := c.Pick(40, 150)
+	for r := 0; r < rounds; r++ {
+		a := kit.NewReplica(1)
+		k := 6
+		payloads := make([][]byte, k)
+		for i := 0; i < k; i++ {
+			ts := int64(100 + i)
+			ev := &api.StateBroadcastEvent{
+				RetainedMessages: []*api.RetainedMessage{{Publish: &packet.Publish{Header: &packet.Header{}, Topic: []byte("mp/hot"), Payload: []byte(fmt.Sprintf("v%d", i))}, LastAdded: ts}},
+				Subscriptions:    []*api.Subscription{{SessionID: "s", Pattern: []byte("mp/hot"), Peer: 2, QoS: int32(i % 3), LastAdded: ts}},
+				SessionMetadatas: []*api.SessionMetadatas{{SessionID: "s", ClientID: "c", Peer: 2, MountPoint: "mp", ConnectedAt: ts, LastAdded: ts}},
+			}
+			payloads[i] = kit.EncodeEvent(ev)
+		}
+		var wg sync.WaitGroup
+		startCh := make(chan struct{})
+		for g := 0; g < k; g++ {
+			wg.Add(1)
+			go func(g int) {
+				defer wg.Done()
+				<-startCh
+				// goroutine g delivers update g first, then the others
+				a.Deliver(payloads[g])
+				for i := 0; i < k; i++ {
+					if i != g && (i+g)%2 == 0 {
+						a.Deliver(payloads[i])
+					}
+				}
+			}(g)
+		}
+		close(startCh)
+		wg.Wait()
+		got := a.Canon().String()
+		want := fmt.Sprintf("sessions{s client=c peer=2 mp=mp at=%d lwt=- added=%d} subscriptions{s mp/hot peer=2 qos=%d added=%d} retained{mp/hot=%q qos=0 added=%d}", 100+k-1, 100+k-1, (k-1)%3, 100+k-1, fmt.Sprintf("v%d", k-1), 100+k-1)
+		if got != want {
+			bad++
+			if witness == "" {
+				witness = fmt.Sprintf("got %s want %s", got, want)
+			}
+		}
+	}
+	c.Observe("merge_race_rounds", rounds)
+	c.Case(fmt.Sprintf("merge-race|%d", round), true)
+	if bad > 0 {
+		c.Violation("replicated-state-lost-update:concurrent-merges", fmt.Sprintf("merge-race round %d: in %d of %d rounds the newest of 6 concurrently merged updates of one key did not survive; e.g. %s", round, bad, rounds, fw.Short(witness, 500)), map[string]interface{}{"round": round, "bad_rounds": bad, "example": witness})
+	}
+}
+
 // ---- 6. a session's filter list -----------------------------------------------------------------
 
 func c20SessionTopics(c *fw.Ctx, round int) {
@@ -557,6 +611,7 @@ func runC20(c *fw.Ctx) {
 		c04Concurrent(c, 100+r)
 		c20Tries(c, r)
 		c20Replicated(c, r)
+		c20MergeRace(c, r)
 		c20SessionTopics(c, r)
 	}
 	for r := 0; r < c.Pick(2, 12); r++ {
